@@ -24,8 +24,12 @@ TRL = {'tcp': 0, 'rtu': 2, 'ascii': 4, 'binary': 3}
 def frames_for(framing, names):
     out = []
     for i, n in enumerate(names):
+        unit = UNIT
+        if '@' in n:                      # 'req03@2': the same message addressed to a foreign unit
+            n, u = n.split('@')
+            unit = int(u)
         m = catalog.BY_NAME[n]
-        out.append(adu.build(framing, UNIT, pdu.encode(m), tid=i + 1))
+        out.append(adu.build(framing, unit, pdu.encode(m), tid=i + 1))
     return out
 
 
@@ -35,7 +39,8 @@ def baseline(framing, side, frames):
     exp = []
     for f in frames:
         got, exc = framers.feed(fr, f, [UNIT], False)
-        if exc is not None or len(got) != 1:
+        foreign = adu.parse_one(framing, f)['unit'] != UNIT
+        if exc is not None or len(got) != (0 if foreign else 1):
             return None, 'one-frame-per-read delivery is itself wrong (%s, %d msgs)' % (
                 type(exc).__name__ if exc else 'no exception', len(got))
         exp.extend(got)
@@ -159,9 +164,12 @@ def stream_sets(tier):
         singles = [(n,) for n in allnames]
         pairs = list(itertools.product(mix, repeat=2))
         triples = []
+        f3 = mix[0] + '@2'                 # a frame for a foreign unit in the stream must cost nothing but itself
+        pairs = pairs + [(f3, mix[0]), (mix[1], f3), (f3, f3)]
+        triples = [(mix[0], f3, mix[1]), (f3, mix[1], f3), (mix[1], mix[1] + '@2', mix[1])]
         if tier == 'thorough':
-            pairs = list(itertools.product(allnames, repeat=2))
-            triples = list(itertools.product(mix, repeat=3)) + list(itertools.product(mix[:3], repeat=4))
+            pairs = list(itertools.product(allnames, repeat=2)) + [(f3, mix[0]), (mix[1], f3), (f3, f3)]
+            triples = triples + list(itertools.product(mix, repeat=3)) + list(itertools.product(mix[:3], repeat=4))
         out.append((side, singles, pairs, triples))
     return out
 
